@@ -294,6 +294,25 @@ func (p *c20prop) runFields(c *core.Case, cc *C20Case, st *core.Stats) []core.Vi
 		return fail("roundtrip-fields", "round trip changed fields: got %+v, want %+v", gen.FromLz(got), cc.Cfg)
 	}
 	st.Inc("roundtrips")
+	// the value ParseJSON returned belongs to the caller: changing it must not
+	// change what the same document decodes to the next time (in this and in
+	// any other goroutine's call)
+	{
+		gb := got.BufConfig()
+		got.SetDefaults()
+		got.SetBufConfig(lz.BufConfig{ShrinkSize: gb.ShrinkSize + 11, BufferSize: gb.BufferSize + 12, WindowSize: gb.WindowSize + 13, BlockSize: gb.BlockSize + 14})
+		again, err := lz.ParseJSON(append([]byte(nil), b...))
+		if err != nil {
+			return fail("roundtrip-error", "second ParseJSON(%s): %v", b, err)
+		}
+		if !reflect.DeepEqual(again, orig) {
+			return fail("roundtrip-fields", "the same document decoded a second time, after the first result was changed by its owner (SetDefaults, SetBufConfig), differs: got %+v, want %+v (document %s)", again, orig, b)
+		}
+		if reflect.ValueOf(again).Pointer() == reflect.ValueOf(got).Pointer() {
+			return fail("roundtrip-fields", "two ParseJSON calls on equal documents returned the same object")
+		}
+		st.Inc("documents_decoded_twice")
+	}
 	// a document of type X must be rejected by every other type
 	for _, t := range gen.ParserTypes {
 		if t == cc.Cfg.Type {
